@@ -50,31 +50,46 @@ def rat(text, tol=1e-12):
     return [0, 0]
 
 
-def run_one(job):
-    tid, rec, toks, rhotxt = job
-    deck = ('composition test\n1 1 %s -1 imp:n=1\n2 0 1 imp:n=0\n\n1 so 5\n\nm1 %s\n' % (rhotxt, ' '.join(toks)))
-    res = conv.convert(deck)
-    out = {'tid': tid, 'card': [{'z': e['z'], 'a': e['a'], 'frac': e['frac']} for e in rec['card']],
-           'rho': rec['rho'], 'result': res['result'], 'diag': bool(res['error'] and res['error']['diag']),
-           'found': 0, 'type': '', 'names': [], 'values': [], 'nb_atom': False, 'dens': [0, 1], 'm0': False,
-           'declared': -1, 'text': deck, 'err': res['error'], 'warnings': res['warnings']}
-    if res['result'] == 'ok':
-        t4 = t4file.parse(res['out'])
-        c = t4['compo']
-        if c is not None:
-            items = [it for it in c['items'] if it['name'] != 'm0']
-            out['m0'] = any(it['name'] == 'm0' for it in c['items'])
-            out['declared'] = int(c['declared']) if c['declared'].isdigit() else -1
-            out['found'] = len(items)
-            if items:
-                it = items[0]
-                out['type'] = it['type']
-                out['names'] = [n for n, _ in it['iso']]
-                out['values'] = [rat(v) for _, v in it['iso']]
-                out['nb_atom'] = bool(it['nb_atom'])
-                out['dens'] = rat(it['dens']) if it['dens'] is not None else [0, 1]
-                out['compo_name'] = it['name']
+def parse_items(res, matnum):
+    """Written composition of material `matnum` (None-safe), plus block-level facts."""
+    out = {'found': 0, 'type': '', 'names': [], 'values': [], 'nb_atom': False, 'dens': [0, 1], 'm0': False,
+           'declared': -1, 'nwritten': 0}
+    t4 = t4file.parse(res['out'])
+    c = t4['compo']
+    if c is None:
+        return out
+    items = [it for it in c['items'] if it['name'].startswith('m%d_' % matnum)]
+    out['m0'] = any(it['name'] == 'm0' for it in c['items'])
+    out['declared'] = int(c['declared']) if c['declared'].isdigit() else -1
+    out['nwritten'] = len(c['items'])
+    out['found'] = len(items)
+    if items:
+        it = items[0]
+        out['type'] = it['type']
+        out['names'] = [n for n, _ in it['iso']]
+        out['values'] = [rat(v) for _, v in it['iso']]
+        out['nb_atom'] = bool(it['nb_atom'])
+        out['dens'] = rat(it['dens']) if it['dens'] is not None else [0, 1]
     return out
+
+
+def run_one(job):
+    """One deck with two materials (cells 1 and 2); returns one trace per material."""
+    tid, (rec1, toks1, rho1), (rec2, toks2, rho2) = job
+    deck = ('composition test\n1 1 %s -1 imp:n=1\n2 2 %s 1 -2 imp:n=1\n3 0 2 imp:n=0\n\n1 so 5\n2 so 8\n\nm1 %s\nm2 %s\n'
+            % (rho1, rho2, ' '.join(toks1), ' '.join(toks2)))
+    res = conv.convert(deck)
+    outs = []
+    for k, rec in ((1, rec1), (2, rec2)):
+        out = {'tid': 2 * tid + k - 2, 'card': [{'z': e['z'], 'a': e['a'], 'frac': e['frac']} for e in rec['card']],
+               'rho': rec['rho'], 'result': res['result'], 'diag': bool(res['error'] and res['error']['diag']),
+               'found': 0, 'type': '', 'names': [], 'values': [], 'nb_atom': False, 'dens': [0, 1], 'm0': False,
+               'declared': -1, 'nwritten': 0, 'text': deck, 'err': res['error'], 'warnings': res['warnings'],
+               'other_rejected': False, 'same_density_text': rho1 == rho2}
+        if res['result'] == 'ok':
+            out.update(parse_items(res, k))
+        outs.append(out)
+    return outs
 
 
 def main():
@@ -96,15 +111,31 @@ def main():
     recs = [uniq[k] for k in sorted(uniq)]
     core.lap('generator')
     jobs = []
-    for i, r in enumerate(recs):
-        jobs.append((i + 1, r, card_text(r, rng), rng.choice(RHO_SPELL[tuple(r['rho'])])))
+    rng.shuffle(recs)
+    for i in range(0, len(recs) - 1, 2):
+        r1, r2 = recs[i], recs[i + 1]
+        rho1 = rng.choice(RHO_SPELL[tuple(r1['rho'])])
+        if rng.random() < 0.4:
+            r2 = dict(r2, rho=r1['rho'])          # two materials at the same density
+            rho2 = rho1
+        else:
+            rho2 = rng.choice(RHO_SPELL[tuple(r2['rho'])])
+        jobs.append((i // 2 + 1, (r1, card_text(r1, rng), rho1), (r2, card_text(r2, rng), rho2)))
     results = conv.run_batch(run_one, jobs, chunksize=32)
     core.lap('converter x%d' % len(jobs))
-    good = [r for r in results if 'machinery_error' not in r]
+    good = []
     for r in results:
-        if 'machinery_error' in r:
+        if isinstance(r, dict) and 'machinery_error' in r:
             chk.machinery(r['machinery_error'])
-    keep = ('tid', 'card', 'rho', 'result', 'diag', 'found', 'type', 'names', 'values', 'nb_atom', 'dens', 'm0', 'declared')
+        else:
+            good += r
+    # a deck is rejected as a whole when either card mixes signs: tell the specification
+    for a, b in zip(good[0::2], good[1::2]):
+        sa = len({e['frac'][0] > 0 for e in a['card']}) == 2
+        sb = len({e['frac'][0] > 0 for e in b['card']}) == 2
+        a['other_rejected'], b['other_rejected'] = sb, sa
+    keep = ('tid', 'card', 'rho', 'result', 'diag', 'found', 'type', 'names', 'values', 'nb_atom', 'dens', 'm0', 'declared',
+            'nwritten', 'other_rejected')
     sd = tlc.scratch_dir('c10')
     core.write_blocks(sd, [{k: r[k] for k in keep} for r in good])
     try:
@@ -126,7 +157,7 @@ def main():
             names = [(e['z'], e['a']) for e in r['card']]
             sig = {'clause': verdict, 'errtype': r['err']['type'] if r['err'] else None,
                    'mixed': len(signs) == 2, 'repeated_nuclide': len(set(names)) < len(names),
-                   'atom_density': r['rho'][0] > 0}
+                   'atom_density': r['rho'][0] > 0, 'same_density_as_other_material': bool(r.get('same_density_text'))}
             chk.violation(sig, {'text': r['text'], 'error': r['err'], 'card': r['card'], 'rho': r['rho'],
                                 'written': {k: r[k] for k in ('type', 'names', 'values', 'nb_atom', 'dens')}})
     if nval != len(good):
